@@ -258,6 +258,9 @@ def plan(tier, seed):
     for k in range(4 if tier == "quick" else 16):
         specs.append({"kind": "large", "examples": 6 if tier == "quick" else 60, "seed": seed * 1000 + 700 + k})
     specs.append({"kind": "ladders", "ks": ladders, "milp_upto": 10 if tier == "quick" else 16})
+    # one group of 8-10 crossing stems (a chain of kissing helices): every member of the k!-fold enumeration is decoded
+    for k in ((8, 9) if tier == "quick" else (8, 9, 10)):
+        specs.append({"kind": "kissing", "k": k})
     return specs
 
 
@@ -328,6 +331,12 @@ def run_shard(spec) -> ShardResult:
                         return check_notation("fcfs", b.fcfs, c[0], c[1])
 
                     check_case(PROP_ID, fcfs_only, (seq, pairs), res, to_json=lambda c: [c[0], list(c[1])])
+        res.exhaustive = False
+    elif kind == "kissing":
+        k = spec["k"]
+        case = ssref.kissing_chain(k, [2 + (i % 2) for i in range(k)])
+        res.note_case([case[0], list(case[1])], True, [f"one-group-of-{k}-crossing-stems"], sample_cap=1)
+        check_case(PROP_ID, lambda c: oracle_structure(c, all_limit=4000000), case, res, to_json=lambda c: [c[0], list(c[1])])
         res.exhaustive = False
     else:
         raise HarnessError(f"unknown shard kind {kind}")
